@@ -97,6 +97,28 @@ pub fn check_valid_market(ctx: &mut Ctx, m: &Market, shape: &str) -> Option<FXRa
             }
         }
     }
+    // exactly the n*n crosses: a currency the market does not contain has no rate (and asking is not an abort)
+    {
+        let foreign = Ccy::try_new("xof").unwrap();
+        ctx.eval(2);
+        ctx.asserted(2);
+        ctx.class("rate:foreign-currency-is-none");
+        match guarded(|| (fx.rate(&foreign, &ccys[0]).is_some(), fx.rate(&ccys[n - 1], &foreign).is_some(), fx.get_ccy_index(&foreign).is_some())) {
+            Caught::Ok((false, false, false)) => {}
+            Caught::Ok(got) => {
+                ctx.violation("C09|rate-for-foreign-currency", json!({"market": m.describe(), "foreign": "xof", "rate(xof, first) / rate(last, xof) / index is Some": [got.0, got.1, got.2]}));
+                return None;
+            }
+            Caught::Panic { loc, msg } => {
+                if crate::sup::is_harness_location(&loc) {
+                    ctx.harness_error(format!("{} {}", loc, msg));
+                } else {
+                    ctx.violation(&format!("C09|panic|rate-for-foreign-currency|{}", crate::sup::short_loc(&loc)), json!({"market": m.describe(), "message": msg}));
+                }
+                return None;
+            }
+        }
+    }
     for a in 0..n {
         ctx.asserted(1);
         if vals[a][a] != 1.0 {
